@@ -12,3 +12,16 @@ Proof.
   revert l. induction y as [|y IH]; intros l; [reflexivity|].
   destruct l as [|a l]; cbn [skipn plus]; [now rewrite skipn_nil|apply IH].
 Qed.
+
+Lemma NoDup_app_remove_r {A} (l l' : list A) : NoDup (l ++ l') -> NoDup l.
+Proof.
+  induction l as [|a l IH]; cbn; intros H; [constructor|].
+  inversion H as [|? ? Hn Hd]; subst. constructor; [|apply IH; exact Hd].
+  intros Hin. apply Hn. apply in_or_app. now left.
+Qed.
+
+Lemma NoDup_app_remove_l {A} (l l' : list A) : NoDup (l ++ l') -> NoDup l'.
+Proof.
+  induction l as [|a l IH]; cbn; intros H; [exact H|].
+  inversion H; subst. apply IH. assumption.
+Qed.
